@@ -11,15 +11,15 @@ import (
 // symView: a source view over {"d", "d/f", "e", "g"}: d is a directory, the other three take a
 // solver-chosen class (regular / symlink / fifo, "g" may also be absent) with symbolic permission
 // bits; regular files carry 0..MAXB symbolic bytes.
-func symView(maxb int) *memFS {
-	fs := &memFS{walkErrAt: -1}
+func vh_symView(maxb int) *vh_memFS {
+	fs := &vh_memFS{walkErrAt: -1}
 	add := func(p string, class int) {
-		e := &memEntry{stat: &types.Stat{Path: p, Mode: modeFor(class, v.U32("perm"))}}
-		if class == clsFile {
+		e := &vh_memEntry{stat: &types.Stat{Path: p, Mode: vh_modeFor(class, v.U32("perm"))}}
+		if class == vh_clsFile {
 			e.data = v.Bytes("data", v.Choose("size", maxb+1))
 			e.stat.Size = int64(len(e.data))
 		}
-		if class == clsSymlink {
+		if class == vh_clsSymlink {
 			e.stat.Linkname = "t"
 		}
 		fs.entries = append(fs.entries, e)
@@ -28,7 +28,7 @@ func symView(maxb int) *memFS {
 	// ".g": an optional entry whose name starts with a dot (sorts before everything else)
 	for _, p := range []string{".g", "d", "d/f", "e"} {
 		if p == "d" {
-			add("d", clsDir)
+			add("d", vh_clsDir)
 			continue
 		}
 		if p == ".g" && !v.Bool("has-g") {
@@ -36,22 +36,22 @@ func symView(maxb int) *memFS {
 		}
 		// class clsCount: a hard link to the first regular file announced so far (a regular
 		// entry whose stat names that file; its bytes are the bytes of the group)
-		c := 1 + v.Choose("class", clsCount)
-		if c == clsCount {
+		c := 1 + v.Choose("class", vh_clsCount)
+		if c == vh_clsCount {
 			v.Assume(firstFile != "")
-			var src *memEntry
+			var src *vh_memEntry
 			for _, e := range fs.entries {
 				if e.stat.Path == firstFile {
 					src = e
 				}
 			}
-			e := &memEntry{stat: &types.Stat{Path: p, Mode: src.stat.Mode, Linkname: firstFile}, data: src.data}
+			e := &vh_memEntry{stat: &types.Stat{Path: p, Mode: src.stat.Mode, Linkname: firstFile}, data: src.data}
 			fs.entries = append(fs.entries, e)
 			v.Cover("hardlink-entry")
 			continue
 		}
 		add(p, c)
-		if c == clsFile && firstFile == "" {
+		if c == vh_clsFile && firstFile == "" {
 			firstFile = p
 		}
 	}
@@ -64,7 +64,7 @@ func symView(maxb int) *memFS {
 // echo. Invalid requests (non-regular, repeated, never announced) must make Send fail.
 func VH_C06_sender() {
 	maxb, nreq := v.Param("MAXB", 2), v.Param("NREQ", 2)
-	view := symView(maxb)
+	view := vh_symView(maxb)
 	if v.Param("OPENERR", 0) != 0 {
 		// a file that was announced but can no longer be opened when it is requested (it vanished
 		// after the walk); what the sender then delivers for it is not asserted here (see the C04
@@ -77,7 +77,7 @@ func VH_C06_sender() {
 		}
 	}
 	ctx := context.Background()
-	snd, rcv := newStreamPair(ctx, 256)
+	snd, rcv := vh_newStreamPair(ctx, 256)
 	var sendErr error
 	done := make(chan struct{})
 	lastProgress, finals, progressOK := 0, 0, true
@@ -115,7 +115,7 @@ func VH_C06_sender() {
 			v.Assert(st.Path == view.entries[i].stat.Path && st.Mode == view.entries[i].stat.Mode && st.Linkname == view.entries[i].stat.Linkname, "STAT i describes the i-th entry of the view")
 		}
 		if i > 0 {
-			v.Assert(specCmp(stats[i-1].Path, st.Path) < 0, "STATs strictly ascending in protocol order")
+			v.Assert(vh_specCmp(stats[i-1].Path, st.Path) < 0, "STATs strictly ascending in protocol order")
 		}
 	}
 
@@ -184,9 +184,9 @@ func VH_C06_sender() {
 // script containing a repeated, non-regular or never-announced id makes Send fail.
 func VH_C06_burst() {
 	maxb, nreq := v.Param("MAXB", 1), v.Param("NREQ", 3)
-	view := symView(maxb)
+	view := vh_symView(maxb)
 	ctx := context.Background()
-	snd, rcv := newStreamPair(ctx, 256)
+	snd, rcv := vh_newStreamPair(ctx, 256)
 	var sendErr error
 	done := make(chan struct{})
 	go func() {
